@@ -555,6 +555,7 @@ def ts_cases(rng, tier):
 ORACLES = {'num': NumOracle, 'flags': FlagOracle, 'mpint': MpintOracle, 'ts': TsOracle}
 
 
+
 class Dispatch(object):
     @staticmethod
     def lines(case):
@@ -569,11 +570,47 @@ class Dispatch(object):
         return ORACLES[case['kind']].prop(case)
 
 
+class ClassTsOracle(object):
+    """case {'kind':'cls-ts','cls':name,'data':hex}: a class that carries a wire time (hello random), run under TZ"""
+
+    @staticmethod
+    def lines(case):
+        return ['R {} {}'.format(case['cls'], case['data'])]
+
+    @staticmethod
+    def impl(case):
+        from harness import clsops
+        return [clsops.impl_lines(case['cls'], core.unhx(case['data']))[0]]
+
+    @staticmethod
+    def prop(case):
+        from harness import clsops
+        cls = clsops.modelled()[case['cls']][0]
+        data = core.unhx(case['data'])
+        try:
+            obj = cls.parse_exact_size(data)
+            again = bytes(obj.compose())
+        except Exception as exc:  # pylint: disable=broad-except
+            return [('ts-class:' + case['cls'], 'TZ={} {}: parse/compose of {} raised {}'.format(
+                os.environ.get('TZ'), case['cls'], case['data'][:60], core.err_line(exc)))]
+        if again != data:
+            return [('ts-class:' + case['cls'], 'TZ={} {}: the wire time does not survive parse/compose: {} -> {}'.format(
+                os.environ.get('TZ'), case['cls'], case['data'][:24], hx(again)[:24]))]
+        import calendar
+        rnd = getattr(obj, 'random', None) or getattr(obj, 'random_bytes', None)
+        wire = int.from_bytes(data[6:10], 'big')
+        if rnd is not None and calendar.timegm(rnd.time.utctimetuple()) != wire:
+            return [('ts-class:' + case['cls'], 'TZ={} {}: parsed time {} is not the wire instant {}'.format(
+                os.environ.get('TZ'), case['cls'], rnd.time, wire))]
+        return []
+
+
 def tz_child_main():
     """child process: read cases as JSON lines, print {'impl': [...], 'prop': [...]} per case."""
     for line in sys.stdin:
         case = json.loads(line)
-        print(json.dumps({'impl': TsOracle.impl(case), 'prop': TsOracle.prop(case)}))
+        oracle = ClassTsOracle if case['kind'] == 'cls-ts' else TsOracle
+        print(json.dumps({'impl': oracle.impl(case), 'prop': oracle.prop(case)}))
 
 
 def run_ts_under_zones(run, cases, zones, driver_ok):
@@ -581,7 +618,7 @@ def run_ts_under_zones(run, cases, zones, driver_ok):
     lines = []
     spans = []
     for case in cases:
-        ls = TsOracle.lines(case)
+        ls = (ClassTsOracle if case['kind'] == 'cls-ts' else TsOracle).lines(case)
         spans.append((len(lines), len(ls)))
         lines.extend(ls)
     if driver_ok:
@@ -655,12 +692,36 @@ def run(run, driver_ok=True, deep=False):
             run.evaluations += 1
             for key, message in Dispatch.prop(case):
                 run.finding(key, message, case)
+    # a large sample of instants in the current process (faults that do not depend on the zone, e.g. rounding)
+    dense = []
+    for _ in range(4000 if tier == 'quick' else 200000):
+        t = rng.randrange(0, 2 ** 32 - 1)
+        ms = rng.random() < 0.6
+        dense.append({'kind': 'ts', 'bo': rng.choice(BOS), 'k': 8 if ms else rng.choice([4, 8]), 'ms': int(ms),
+                      't': t * 1000 + rng.randrange(1000) if ms else t, 'naive': bool(rng.getrandbits(1))})
+        if dense[-1]['k'] == 4:
+            dense[-1]['bo'] = rng.choice(BOS)
+    for c in dense[:50]:
+        run.note_nontrivial(('ts', c['k'], c['ms'], c['t']))
+    run.count('ops', 'ts-dense', len(dense))
+    if driver_ok:
+        core.correspond(run, Dispatch, dense)
+    else:
+        for case in dense:
+            run.evaluations += 1
+            for key, message in Dispatch.prop(case):
+                run.finding(key, message, case)
     tcases = ts_cases(rng, tier)
     zones = QUICK_ZONES if tier == 'quick' else all_zones()
     for c in tcases:
-        if c['t']:
+        if c.get('t'):
             run.note_nontrivial(('ts', c['k'], c['ms'], c['t']))
     run.sample(dict(tcases[5], TZ='Europe/Moscow'))
+    # classes that carry a wire time: hello messages (4-byte gmt_unix_time), under the same zones
+    from harness import gen_tls
+    for i in range(12 if tier == 'quick' else 60):
+        h = gen_tls.server_hello(rng) if i % 2 else gen_tls.client_hello(rng)
+        tcases.append({'kind': 'cls-ts', 'cls': type(h).__name__, 'data': hx(bytes(h.compose()))})
     run_ts_under_zones(run, tcases, zones, driver_ok)
     run.notes.append('zones covered: {}'.format(len(zones)))
     run.notes.append('numeric values evaluated individually inside bulk cases: {}'.format(
